@@ -442,26 +442,38 @@ class ExpressionDimensionsMapper(Mapper):
         step = expr.step.value if expr.step is not None else 1
         return as_tuple((expr.upper - lower) // step)
 
-    def map_sum(self, expr, *args, **kwargs):
-        dim = (1,)
-        for ch in expr.children:
-            child_dim = self.rec(ch, *args, **kwargs)
-            if dim == (1,):
-                dim = child_dim
-            elif child_dim not in (dim, 1):
-                raise ValueError(f'Non-matching dimensions: {str(dim)} and {str(child_dim)}')
-        return dim
+    map_constant = map_algebraic_leaf
 
-    map_product = map_sum
+    @staticmethod
+    def _is_scalar_dim(dim):
+        """ Dimensions of a scalar: no extent, or a single extent of one """
+        return len(dim) == 0 or (len(dim) == 1 and dim[0] == 1)
+
+    @staticmethod
+    def _is_unknown_dim(dim):
+        """ Dimensions that are given by a symbol of unknown type itself """
+        from loki.expression.symbols import DeferredTypeSymbol  # pylint: disable=import-outside-toplevel,cyclic-import
+        return any(isinstance(d, DeferredTypeSymbol) for d in dim)
 
     def _combine_operands(self, operands, *args, **kwargs):
         """ The dimensions of an elementwise operation on the given operands """
-        dim = (1,)
+        # pylint: disable=import-outside-toplevel,cyclic-import
+        from loki.expression.symbols import IntLiteral
+        dim = None
         for operand in operands:
             operand_dim = self.rec(operand, *args, **kwargs)
-            if dim == (1,):
+            if self._is_scalar_dim(operand_dim):
+                continue
+            # Extents are symbolic and not normalised (``3`` vs. ``4 - 1``), so differing
+            # extents of two operands do not prove that they are not conformable
+            if dim is None or self._is_unknown_dim(dim):
                 dim = operand_dim
-        return dim
+        return dim if dim is not None else as_tuple(IntLiteral(1))
+
+    def map_sum(self, expr, *args, **kwargs):
+        return self._combine_operands(expr.children, *args, **kwargs)
+
+    map_product = map_sum
 
     def map_quotient(self, expr, *args, **kwargs):
         return self._combine_operands((expr.numerator, expr.denominator), *args, **kwargs)
